@@ -73,12 +73,16 @@ def job(label, n, Kc, timeout_q=20.0, max_paths=3000):
         res["obligations"].append(_strip(o))
         if o["verdict"] == "sat":
             _report(res, label, n, Kc, o, "score-differs-with-return_grad", tag, pc)
-        flatG = [core.to_rat(x) for x in G.reshape(-1)]
+        flatG = [x if harness.nonfinite(x) else core.to_rat(x) for x in G.reshape(-1)]
         dres = harness.check_defined([S] + flatG, pc, name=tag + "/defined")
+        if dres["verdict"] == "sat" and dres.get("model") is None and wmodel is not None:
+            dres["model"] = wmodel       # undefined on the whole path: any point of the path is a witness
         res["queries"] += dres.get("n_guards", 0)
         res["obligations"].append(_strip(dres))
         if dres["verdict"] == "sat":
             _report(res, label, n, Kc, dres, "undefined", tag, pc)
+        if any(harness.nonfinite(x) for x in [S] + flatG):
+            continue
         for i in range(n):
             for k in range(Kc - 1):
                 x = st["base"][i][k]
@@ -298,7 +302,12 @@ def replay(rep, verbose=False):
 
 
 def _replay_fd(gem, P, A, n, Kc, verbose):
-    S, G = gem.evaluate(P.copy(), A, return_grad=True)
+    with np.errstate(all="ignore"):
+        S, G = gem.evaluate(P.copy(), A, return_grad=True)
+    if not (np.isfinite(S) and np.all(np.isfinite(np.asarray(G, dtype=float)))):
+        if verbose:
+            print("non-finite score / gradient:", S, np.asarray(G).tolist(), "P", P.tolist(), "A", None if A is None else A.tolist())
+        return True
     S0 = gem.evaluate(P.copy(), A, return_grad=False)
     if abs(float(S) - float(S0)) > 1e-9 * max(1.0, abs(float(S))):
         if verbose:
